@@ -264,6 +264,31 @@ func le64(v uint64) []byte {
 	return b
 }
 
+// tapeRand adapts the verification hook random.NewTapeRand (a Rand over a caller-chosen byte source: the bytes of the
+// tape, then zeros) to the interface the op runner expects; Store belongs to the ChaCha20 object and is never called
+type tapeRand struct {
+	*random.TapeRand
+}
+
+func (tapeRand) Store() []byte { panic("Store on a tape generator") }
+
+func tapeRun(tape []byte, ops []string) string {
+	return guard(func() string {
+		pos := 0
+		g := tapeRand{random.NewTapeRand(func(b []byte) {
+			for i := range b {
+				if pos < len(tape) {
+					b[i] = tape[pos]
+				} else {
+					b[i] = 0
+				}
+				pos++
+			}
+		})}
+		return "ok" + prgOps(g, ops)
+	})
+}
+
 func genC15(c *Ctx) {
 	nSeeds := 40
 	if c.thorough() {
@@ -273,6 +298,61 @@ func genC15(c *Ctx) {
 		seed, cust := c.bytes(32), c.bytes(c.intn(13))
 		line := fmt.Sprintf("prg %s %s %s", hx(seed), hx(cust), strings.Join(ops, " "))
 		c.Case(class, line, prgRun(seed, cust, ops))
+	}
+	// the generic methods over chosen byte tapes (hook random.NewTapeRand): runs of k draws that UintN must reject
+	// (all-ones draws are out of range for every n that is not a power of two), k far beyond what a real
+	// generator ever produces, then draws in range; the model runs rand.go's loops over the same tape
+	{
+		emitTape := func(class string, tape []byte, ops []string) {
+			c.Case(class, fmt.Sprintf("prgtape %s %s", hx(tape), strings.Join(ops, " ")), tapeRun(tape, ops))
+		}
+		ks := []int{0, 1, 2, 7, 63, 64, 65, 127, 128, 129, 255, 256, 257, 300}
+		if c.thorough() {
+			ks = append(ks, 1000, 4095, 4096, 4097, 70000)
+		}
+		for _, n := range []uint64{3, 5, 6, 7, 100, 255, 257, 1000, 65535, 65537, 1<<32 + 1, 1<<63 + 1, ^uint64(0)} {
+			size := 0
+			for t := n - 1; t != 0; t >>= 8 {
+				size++
+			}
+			for _, k := range ks {
+				tape := make([]byte, 0, (k+3)*size)
+				for i := 0; i < k*size; i++ {
+					tape = append(tape, 0xFF)
+				}
+				tape = append(tape, c.bytes(3*size)...)
+				// make the draw after the rejected ones in range: clear its most significant byte
+				tape[k*size+size-1] = 0
+				emitTape("uintn-tape/rejections", tape, []string{fmt.Sprintf("u%d", n), fmt.Sprintf("u%d", n), "r3"})
+			}
+		}
+		for _, k := range ks {
+			// a permutation / shuffle / sampling that meets the rejections in the middle
+			tape := c.bytes(6)
+			for i := 0; i < k; i++ {
+				tape = append(tape, 0xFF)
+			}
+			tape = append(tape, c.bytes(40)...)
+			for i := range tape {
+				if tape[i] != 0xFF {
+					tape[i] &= 0x0F
+				}
+			}
+			emitTape("perm-tape/rejections", tape, []string{"p12", "r2"})
+			emitTape("perm-tape/rejections", tape, []string{"sh11", "r2"})
+			emitTape("perm-tape/rejections", tape, []string{"sm13,9", "sp7,3", "r2"})
+		}
+		for i := 0; i < nSeeds; i++ {
+			// random tapes with a skewed byte distribution (many high bytes: many rejections)
+			tape := c.bytes(200)
+			for j := range tape {
+				if c.intn(3) != 0 {
+					tape[j] |= 0xE0
+				}
+			}
+			n := uint64(2 + c.intn(300))
+			emitTape("uintn-tape/random", tape, []string{fmt.Sprintf("u%d", n), fmt.Sprintf("p%d", 2+c.intn(20)), fmt.Sprintf("u%d", n+1), "r4"})
+		}
 	}
 	// UintN at n = 1,2,3, 2^k, 2^k±1, 2^64-1
 	ns := []uint64{0, 1, 2, 3, 255, 256, 257, 65535, 65536, 65537, ^uint64(0), 1 << 63, 1<<63 + 1, 1<<63 - 1}
